@@ -21,6 +21,10 @@
     the fuel of `Filter` exhausted).
   * sizes are `Nat`, `int64_t` is `Int` (no wrap-around: assumption "all counts and Range values stay below 2^63").
   Core Lean only (the driver links against this file).
+
+  Companion files: Cello/IterMut.lean — containers that have been MUTATED before they are iterated (List with its
+  head / tail / next / prev link words, Array with its backing store, Table and Tree through the models of src/Table.c and
+  src/Tree.c); Cello/IterExpr.lean — the expression language of the op files and `denote`.
 -/
 namespace Cello.Iter
 
@@ -337,8 +341,18 @@ def rangeLen (start stop step : Int) : Nat :=
   else if step > 0 then (Int.tdiv ((stop - 1) - start) step + 1).toNat
   else (Int.tdiv ((stop - 1) - start) (-step) + 1).toNat
 
-/-- Range_Get: the value written to the Int cell, or `none` = IndexOutOfBoundsError -/
+/-- Range_Get (after fix 81e7452): `n = Range_Len(r); i = i < 0 ? n+i : i;` the element is computed only when
+    `0 <= i < n` (so step 0, whose length is 0, refuses every index); `none` = IndexOutOfBoundsError -/
 def rangeGet (start stop step : Int) (key : Int) : Option Int :=
+  let n : Int := rangeLen start stop step
+  let i := if key < 0 then n + key else key
+  if step > 0 ∧ i ≥ 0 ∧ i < n then some (start + step * i)
+  else if step < 0 ∧ i ≥ 0 ∧ i < n then some (stop - 1 + step * i)
+  else none
+
+/-- Range_Get before commit 81e7452: step 0 answered 0 for every index, and the bound was tested on the computed element
+    (`start + step*i < stop`) instead of on the index (kept for `C11_rangeGet_old_refuted`) -/
+def rangeGetOld (start stop step : Int) (key : Int) : Option Int :=
   let i := if key < 0 then (rangeLen start stop step : Int) + key else key
   if step = 0 then some 0
   else if step > 0 ∧ i ≥ 0 ∧ start + step * i < stop then some (start + step * i)
@@ -565,98 +579,5 @@ def zipLists {α : Type} : List (List α) → List (List α)
 /-- enumerate: `zip(range(len I), I)` (enumerate_stack sets the Range's stop to `len(I)`); `inj` embeds the counter -/
 def enumI {α : Type} (I : Iterable α) (n : Nat) (inj : Int → α) : Iterable (List α) :=
   zipI [mapI (rangeI 0 n 1) inj, I]
-
-/-! ## Universal values and the expression language of the op files -/
-
-/-- what the harness prints for an element: an Int, or a tuple of elements (Zip) -/
-inductive Val where
-  | int (i : Int)
-  | tup (l : List Val)
-deriving Repr
-
-mutual
-/-- the number a test predicate / function sees: the Int itself, or the sum over a tuple -/
-def Val.key : Val → Int
-  | .int i => i
-  | .tup l => Val.keyList l
-def Val.keyList : List Val → Int
-  | [] => 0
-  | v :: t => v.key + Val.keyList t
-end
-
-mutual
-def Val.show : Val → String
-  | .int i => toString i
-  | .tup l => "(" ++ Val.showList l ++ ")"
-def Val.showList : List Val → String
-  | [] => ""
-  | [v] => v.show
-  | v :: t => v.show ++ "," ++ Val.showList t
-end
-
-/-- iterable expressions (one per `W` line of an op file) -/
-inductive Expr where
-  | array (vs : List Int)
-  | list (vs : List Int)
-  | tuple (ids : List Nat)
-  | table (slots : List (Option Int))
-  | tree (t : T Int)
-  | rtree (ks : List Int)
-  | range (args : List (Option Int))
-  | slice (e : Expr) (args : List (Option Int))
-  | zip (es : List Expr)
-  | enum (e : Expr)
-  | filter (e : Expr) (m r : Int)
-  | map (e : Expr) (a b : Int)
-deriving Repr
-
-/-- fuel given to Filter loops by the driver (larger than any walk the harness performs) -/
-def filterFuel : Nat := 100000
-
-/-- test predicate `key(x) mod m == r` (mathematical mod; `m = 0` accepts nothing) -/
-def testPred (m r : Int) (v : Val) : Bool := m ≠ 0 && v.key % m == r
-/-- test function `x ↦ Int(a * key(x) + b)` -/
-def testFun (a b : Int) (v : Val) : Val := .int (a * v.key + b)
-
-mutual
-/-- the model of the object the harness constructs for an expression; `.error` = the constructor raises -/
-def denote : Expr → Except String (Iterable Val)
-  | .array vs => .ok (arrayI (vs.map Val.int))
-  | .list vs => .ok (listI (vs.map Val.int))
-  | .tuple ids => .ok (mapI (tupleI ids) (fun i => Val.int i))
-  | .table slots => .ok (tableI (slots.map (fun o => o.map Val.int)))
-  | .tree t => .ok (mapI (treeI t) Val.int)
-  | .rtree ks => .ok (mapI (treeI (ks.foldl T.insert .nil)) Val.int)
-  | .range args => match rangeStack args with
-    | some (a, b, c) => .ok (mapI (rangeI a b c) Val.int)
-    | none => .error "range-args"
-  | .slice e args => match denote e with
-    | .ok I => match I.len with
-      | some n => match sliceStack n args with
-        | some (a, b, c) => .ok (sliceI I n a b c)
-        | none => .error "slice-args"
-      | none => .error "no-len"
-    | .error m => .error m
-  | .zip es => match denoteList es with
-    | .ok Is => .ok (mapI (zipI Is) Val.tup)
-    | .error m => .error m
-  | .enum e => match denote e with
-    | .ok I => match I.len with
-      | some n => .ok (mapI (enumI I n Val.int) Val.tup)
-      | none => .error "no-len"
-    | .error m => .error m
-  | .filter e m r => match denote e with
-    | .ok I => .ok (filterI I (testPred m r) filterFuel)
-    | .error m => .error m
-  | .map e a b => match denote e with
-    | .ok I => .ok (mapI I (testFun a b))
-    | .error m => .error m
-def denoteList : List Expr → Except String (List (Iterable Val))
-  | [] => .ok []
-  | e :: es => match denote e, denoteList es with
-    | .ok I, .ok Is => .ok (I :: Is)
-    | .error m, _ => .error m
-    | _, .error m => .error m
-end
 
 end Cello.Iter
